@@ -29,12 +29,40 @@ def run(payload):
     # 3. the same programs from several threads at once
     nthreads = payload.get('threads', 0)
     if nthreads:
+        import io, sys
+        from sc3.synth.synthdef import SynthDef
+        from sc3.synth.synthdesc import SynthDesc
+        from sc3.synth.ugens.inout import Out
         results = [None] * len(cases)
         errors = []
+        # a definition with a long control table: its description is read (SynthDesc reader, which
+        # also enters the build context) by a reader thread while the builder threads build
+        ns = {'Out': Out}
+        exec('def big(a=' + repr(tuple(range(1, 801))) + '):\n    Out.kr(0, a[0])\n', ns)
+        big_raw = bytes(SynthDef('big', ns['big']).as_bytes())
+        stop = threading.Event()
+        reads = [0]
+
+        def reader():
+            try:
+                while not stop.is_set():
+                    SynthDesc._read_stream(io.BytesIO(big_raw), keep_defs=(reads[0] % 2 == 0))
+                    reads[0] += 1
+            except Exception as e:
+                errors.append(f'reader: {type(e).__name__}: {e}')
+        old_si = sys.getswitchinterval()
+        sys.setswitchinterval(5e-5)
+        rt = threading.Thread(target=reader)
+        rt.start()
+
+        import time as _time
+        deadline = _time.time() + payload.get('thread_seconds', 6)
 
         def worker(k):
             try:
-                for i in range(k, len(cases), nthreads):
+                for i in range(k, min(len(cases), payload.get('thread_cases', 10**9)), nthreads):
+                    if _time.time() > deadline:
+                        break
                     if cases[i].get('poison') and i % 2:
                         c01.build_program(cases[i]['poison'], residue_check=False)
                     results[i] = c01.build_program(cases[i]['prog'], residue_check=False)['canon']
@@ -43,6 +71,9 @@ def run(payload):
         ts = [threading.Thread(target=worker, args=(k,)) for k in range(nthreads)]
         for t in ts: t.start()
         for t in ts: t.join()
+        stop.set(); rt.join()
+        sys.setswitchinterval(old_si)
+        out[0]['desc_reads_during_builds'] = reads[0]
         for i, r in enumerate(out):
             r['threaded'] = results[i]
         if errors:
